@@ -302,6 +302,11 @@ def run_cases(ctx, ncases, with_model, variant):
         fails = check_property(S, before, case, status, res)
         if case["call"]["fn"] == "makeSphere" and status == "ok":
             fails += sphere_vs_ellipsoid(S, case["call"]["radii"][0])
+        if status == "ok" and len(S) > 0:
+            S2 = h15.build_structure(case["structure"])
+            st2, res2 = do_call(S2, case["call"])
+            if st2 == "ok":
+                fails += h15.independence_failures(S2, res2)
         lat = case["structure"]["lattice"]
         ctx.count(("case", len(S), lat["kind"], "rot" in lat, case["call"]["fn"], len(case["call"]["radii"]),
                    status if status != "ok" else min(len(res), 40)))
